@@ -209,7 +209,14 @@ def eval_subtree(tree):
         # Subtree represents a *factor* in an expression.
         if len(tree) > 2:
             if tree[2] == '^':
-                return eval_subtree(tree[1])**eval_subtree(tree[3])
+                base = eval_subtree(tree[1])
+                power = eval_subtree(tree[3])
+                if float(base) < 0 and power != int(power):
+                    # Python 3 would return a complex number here.
+                    raise UnitsParseError(
+                        "Negative base %s raised to fractional power %s"
+                        % (base, power))
+                return base**power
         else:
             return eval_subtree(tree[1])
 
